@@ -97,7 +97,7 @@ def run(module, func, payload, world, timeout=120):
         initfile = os.path.join(tmp, 'init')
         env = dict(os.environ, PYTHONPATH=VERIF_ROOT + os.pathsep + os.environ.get('PYTHONPATH', ''), OMP_NUM_THREADS='1')
         procs = [subprocess.Popen([sys.executable, '-c', 'from kverif.realdist import rank_main; rank_main()', module, func, pf, str(r), str(world), initfile,
-                                   os.path.join(tmp, f'out{r}.pkl')], cwd=VERIF_ROOT, env=env, stdout=subprocess.PIPE, stderr=subprocess.STDOUT, text=True)
+                                   os.path.join(tmp, f'out{r}.pkl')], cwd=VERIF_ROOT, env=dict(env, PYTHONHASHSEED=str(7919 * (r + 1))), stdout=subprocess.PIPE, stderr=subprocess.STDOUT, text=True)
                  for r in range(world)]
         outs = []
         ok = True
